@@ -371,12 +371,13 @@ Definition own_ctype (i : inp) : option str :=
   | _ => None
   end.
 
-(* [explicit]: the body the instance holds when it is called (Response.__init__ drops a body= given to the
-   constructor of a 204 / 205 / 304 class; a body assigned afterwards is kept - and then sent as is) *)
+(* [explicit]: None when the application supplied no body (then one is generated on call), else the body the
+   instance holds when it is called - possibly empty (Response.__init__ drops a body= given to the constructor
+   of a 204 / 205 / 304 class; a body assigned afterwards is kept - and then sent as is) *)
 Definition call (cfg : tcfg) (cl : excls) (i : inp) (a : accept_in) (is_head : bool)
            (explicit : option str) : resp :=
   let own := match explicit with Some b => b | None => [] end in
-  let has_body := nonempty own in
+  let has_body := match explicit with Some _ => true | None => false end in   (* a supplied body may be empty *)
   if has_body || c_empty cl || is_head then
     mkResp (status_of cl) (own_ctype i)
            (Some (if is_head then [] else own))
@@ -438,8 +439,7 @@ Definition with_location (hs : list (str * str)) (loc : option str) : list (str 
 
 Definition obj_step (cfg : tcfg) (cl : excls) (detail comment : str) (explicit : option str)
            (hs : list (str * str)) (r : reqst) : list (str * str) * resp :=
-  let own := match explicit with Some b => b | None => [] end in
-  (if nonempty own || c_empty cl || q_head r then hs else filter not_cl hs,
+  (if match explicit with Some _ => true | None => false end || c_empty cl || q_head r then hs else filter not_cl hs,
    call cfg cl (mkInp detail comment (with_location hs (q_location r)) (q_environ r))
         (q_accept r) (q_head r) explicit).
 
